@@ -37,7 +37,7 @@ STR_POOL = ['""', '"a"', '"draft"', '"x y"', '"0"', '"None"', '"S0"']
 INT_POOL = ["0", "-1", "1", "2", "10", "-7", "100"]
 TUP_POOL = ["()", "(0,)", "(1, 2)", "('a',)", "(0, 0)", "(None,)"]
 MIXED_POOL = ['""', "0", '"a"', "()", "-1", "(0,)", '"0"', "2.5"]
-SHAPES = ["attr", "attr", "instance_attr", "missing", "property", "falsy_len", "falsy_bool", "default"]
+SHAPES = ["attr", "attr", "instance_attr", "missing", "property", "falsy_len", "falsy_bool", "default", "libmodel"]
 
 
 def assign_values(rng, spec):
